@@ -194,7 +194,9 @@ func c07Run(w *Worker, t *c07Text, rep *Report, bad *[]*Finding) {
 				rep.inconclusiveViolation(&Case{Name: f.Case}, &Violation{Sub: "format", Msg: msg}, "no model")
 				return
 			}
-			// replay natively with the model's font table and parameters
+			// replay natively with the model's font table and parameters, on a
+			// process that formatted nothing before
+			w.N.Fresh()
 			nout, ok := c07Native(w, t, syms, model, src, fontID)
 			f.Outputs = map[string]string{"native": nout}
 			if !ok {
@@ -240,6 +242,11 @@ func c07Run(w *Worker, t *c07Text, rep *Report, bad *[]*Finding) {
 			return
 		}
 		if nout != out {
+			w.N.Fresh()
+			if fout, ok := c07Native(w, t, syms, model, src, fontID); ok && fout == out {
+				rep.historyDependent(fmt.Sprintf("format(%q): the native build answers %q in a fresh process and %q after other calls", src, fout, nout))
+				return
+			}
 			rep.engineMismatch(fmt.Sprintf("format(%q): engine %q native %q model %v", src, out, nout, model))
 			return
 		}
@@ -860,6 +867,7 @@ func c07PlumbRun(w *Worker, pc *c07PlumbCase, rep *Report) {
 		writeJSON(cfgPath, cfg)
 		nsrc := atoms.Substitute(src, values)
 		f.Sources = map[string]string{"source": nsrc}
+		w.N.Fresh()
 		resp, _, err := w.N.Do(NativeReq{Op: "compile", Src: nsrc, Optimize: true, FontPath: cfgPath, FontID: cliFont, MaxLen: get(cliMax.T)}, 10*time.Second)
 		if err != nil {
 			rep.unconfirmed(f)
